@@ -69,7 +69,7 @@ PROPS = {
                      "real Prometheus PromQL engine whose Select filters series through the real storepb.ShardMatcher; shard sub-requests "
                      "complete in scheduler-chosen order and may fail and be retried; differential against the same chain with sharding off",
         "design_ref": "DESIGN.md §6 C44, §6b C44",
-        "quick": {"runs": 40000, "seconds": 45},
+        "quick": {"runs": 25000, "seconds": 45},
         "thorough": {"runs": 900000, "seconds": 780},
         "rule": "one evaluation = one series set (3-12 series of 4 metrics incl. a classic histogram, labels a,b,c,le) and 1-3 generated PromQL "
                 "programs (aggregations by/without, rate/increase, binary operators with on/ignoring/group_left, label_replace/label_join, "
@@ -83,7 +83,9 @@ PROPS = {
             "stub": ["querier HTTP API (in-process RoundTripper around the engine, parks at the scheduler)", "storage (in-memory sorted series; "
                      "shard filter applied per selected series as stores do)", "clock"],
         },
-        "assumptions": ["programs come from the world's own generator (promqlsmith not used); native histograms, subqueries and @ modifiers are not generated",
+        "assumptions": ["programs come from the world's own generator (promqlsmith not used); native histograms, subqueries and @ modifiers are not generated; "
+                        "topk/bottomk (ties are resolved arbitrarily) and stddev/stdvar (engine-internal summation order changes the last bits) are excluded",
+                        "values are compared with 1e-9 relative tolerance and an absolute floor of 1e-6",
                         "programs whose unsharded evaluation fails are skipped; a shard sub-request hit by an injected fault may fail the request",
                         "each distinct downstream sub-request fails at most once per run"],
         "text": "Seeded sampling of programs, series sets, shard counts and schedules; not exhaustive.",
